@@ -57,7 +57,7 @@ let hex_of_z (x : z) : string =
 let split_list conv s = if s = "-" || s = "" then [] else List.map conv (String.split_on_char ',' s)
 
 let () =
-  let max_print = ref 400 and nsamples = ref 6 and verdicts = ref false in
+  let max_print = ref 1000000 and nsamples = ref 6 and verdicts = ref false in
   Array.iteri (fun i a -> if a = "--max-print" then max_print := int_of_string Sys.argv.(i+1)
                           else if a = "--samples" then nsamples := int_of_string Sys.argv.(i+1)
                           else if a = "--verdicts" then verdicts := true) Sys.argv;
